@@ -20,7 +20,8 @@ EXPLANATION = (
     "forces equal composition and charge: same name, or ice with equal basename+charge+group, or grains (no elements) with equal "
     "group+charge, or both electrons. R3 electrons hash to one constant so that all spellings share one ODE variable. R4 (shared with "
     "C09.R6) distinct species get distinct IDX_ identifiers: Species.alias is <phase><basename><injective charge run> and is never "
-    "post-processed by deleting characters.")
+    "post-processed by deleting characters. R5 (shared with C01.R9) nothing but the pasted equations writes ydot and the working copy of "
+    "the abundances is the abundance vector. R6 the composition table accumulates: every write to element_count adds or creates a new entry.")
 ASSUMPTIONS = [
     "whether an input network is balanced is the user's premise",
     "the composition assigned to a given name is C08's subject (not decidable statically)",
@@ -48,6 +49,39 @@ def check(ctx):
     # R5: the balanced polynomials ARE what the compiled function returns: nothing else writes ydot or filters y (shared with C01.R9)
     from .c01 import rhs_writers
     rhs_writers(ctx, "R5")
+    _r6(ctx)
+
+
+def _r6(ctx):
+    """The composition table the element sums are built from accumulates: an element met at two places of a formula (CH3OH) is
+    counted at both.  Every write to element_count[...] adds, or creates the entry of an element seen for the first time."""
+    from ..valueflow import Flow, show, simp
+    pkg = package(ctx.tree)
+    fn = pkg.cls("Species").methods.get("_add_element_count")
+    if fn is None:
+        ctx.missing("R6", "Species._add_element_count", (SPECIES, 0), "method vanished")
+        return
+    ctx.saw(SPECIES, "Species._add_element_count")
+    fl = Flow(fn, SPECIES)
+    n = 0
+    for f in fl.facts:
+        tgt = str(f.target)
+        is_table = tgt.endswith("element_count")
+        if f.kind in ("store", "augstore") and is_table:
+            n += 1
+            g = [(show(simp(c)).replace(" ", ""), p) for c, p in f.guards]
+            absent = any((("inself.element_count" in c and "notin" not in c) and p is False) or ("notinself.element_count" in c and p is True) for c, p in g)
+            ok = (f.kind == "augstore" and getattr(f, "op", None) == "Add") or (f.kind == "store" and absent)
+            ctx.check(ok, "R6", f"element_count:{f.kind}", (SPECIES, f.line),
+                      "adds to the count" if f.kind == "augstore" else "creates the entry only for an element not counted yet" if ok else
+                      "the count of an element is OVERWRITTEN when the element is met again: CH3OH gets H:1, the element totals and the renormalisation use wrong compositions",
+                      expected="element_count[e] += n, or = n only when e is not in the table", found=f"{f.kind} guarded by {[c for c, _ in g][-1:]}")
+        elif f.kind == "call" and f.value and f.value[0] == "meth" and f.value[2] in ("update", "setdefault", "__setitem__") and show(f.value[1]).endswith("element_count"):
+            n += 1
+            ctx.bad("R6", f"element_count:.{f.value[2]}()", (SPECIES, f.line),
+                    f"element_count.{f.value[2]}(..) on a plain dict replaces the entry of an element met again instead of adding to it (dict.update is not Counter.update)",
+                    expected="element_count[e] += n", found=show(f.value)[:80])
+    ctx.floor("R6", "writes to element_count", n, 2)
 
 
 def _resolve(e, sets):
@@ -218,6 +252,8 @@ MUTANTS = [
     {"name": "electron-hash-name", "file": SPECIES, "old": '            hash("Electron")\n            if self.is_electron', "new": '            hash(self.name)\n            if self.is_electron', "rules": ["R3"]},
 ]
 MUTANTS += [
+    {"name": "element-count-dict-update", "file": SPECIES, "old": "        if element in self.element_count.keys():\n            self.element_count[element] += count\n        else:\n            self.element_count[element] = count\n", "new": "        self.element_count.update({element: count})\n", "rules": ["R6"]},
+    {"name": "element-count-overwrite", "file": SPECIES, "old": "        if element in self.element_count.keys():\n            self.element_count[element] += count\n        else:\n            self.element_count[element] = count\n", "new": "        self.element_count[element] = count\n", "rules": ["R6"]},
     {"name": "cvode-fex-zeroes-exhausted", "file": "naunet/templates/cvode/src/naunet_fex.cpp.j2", "old": "#if ((NHEATPROCS || NCOOLPROCS) && NAUNET_DEBUG)\n    printf(\"Total heating/cooling rate", "new": "    for (int i = 0; i < NSPECIES; i++) {\n        if (y[i] <= 0.0 && ydot[i] < 0.0) ydot[i] = 0.0;\n    }\n#if ((NHEATPROCS || NCOOLPROCS) && NAUNET_DEBUG)\n    printf(\"Total heating/cooling rate", "rules": ["R5"]},
     {"name": "alias-strip-nonword", "file": SPECIES, "old": "        return self._alias\n\n    @alias.setter", "new": "        self._alias = re.sub(r'\\W', '', self._alias)\n        return self._alias\n\n    @alias.setter", "rules": ["R4"]},
     {"name": "alias-single-M", "file": SPECIES, "old": 'else "M" * abs(self.charge),', "new": 'else "M",', "rules": ["R4"]},
